@@ -48,6 +48,7 @@ type c15Interp struct {
 	grabbed string      // wire of the term grab/1 received
 	term    engine.Term // the term itself (resolved)
 	val     engine.Term // what val/1 delivers
+	vals    [3]engine.Term // what val3/3 delivers
 }
 
 var c15 struct {
@@ -69,6 +70,9 @@ func c15Get(flag string) *c15Interp {
 			})
 			i.Register1(engine.NewAtom("val"), func(vm *engine.VM, x engine.Term, k engine.Cont, env *engine.Env) *engine.Promise {
 				return engine.Unify(vm, x, ci.val, k, env)
+			})
+			i.Register3(engine.NewAtom("val3"), func(vm *engine.VM, x, y, z engine.Term, k engine.Cont, env *engine.Env) *engine.Promise {
+				return engine.Unify(vm, engine.List(x, y, z), engine.List(ci.vals[0], ci.vals[1], ci.vals[2]), k, env)
 			})
 			ci.i = i
 			c15.by[f] = ci
@@ -732,6 +736,37 @@ func runC15Scan(payload string) string {
 	if !ok {
 		panic("bad destination " + dname)
 	}
+	if path == "MM" {
+		// several variables scanned into ONE map: every entry must be the value of ITS variable
+		ps := strings.Split(payload, " ;; ")
+		ci := c15Get("chars")
+		ci.mu.Lock()
+		defer ci.mu.Unlock()
+		for k := 0; k < 3; k++ {
+			d := newTermDecoder()
+			ts, err := d.terms(ps[1+k])
+			must(err)
+			ci.vals[k] = c15Term(ts[0])
+		}
+		sol := ci.i.QuerySolution("val3(X, Y, Z).")
+		must(sol.Err())
+		m := reflect.MakeMap(reflect.MapOf(reflect.TypeOf(""), typ))
+		tags := fmt.Sprintf(" ### dest=%s path=MM", strings.ReplaceAll(dname, " ", ""))
+		if serr := sol.Scan(m.Interface()); serr != nil {
+			return "err" + tags + " nt=0 outcome=err"
+		}
+		var sb strings.Builder
+		sb.WriteString("ok")
+		for _, name := range []string{"X", "Y", "Z"} {
+			v := m.MapIndex(reflect.ValueOf(name))
+			if !v.IsValid() {
+				sb.WriteString(" " + name + "=missing")
+			} else {
+				sb.WriteString(" " + name + "=" + c15GoVal(v))
+			}
+		}
+		return sb.String() + tags + " nt=1 outcome=ok"
+	}
 	d := newTermDecoder()
 	ts, err := d.terms(parts[1])
 	must(err)
@@ -865,6 +900,10 @@ func genC15Scan(r *rand.Rand, n int, tier string) []string {
 			}
 			out = append(out, fmt.Sprintf("M %s ;; %s", d, inner))
 		}
+	}
+	for i := 0; i < n/8; i++ {
+		d := pick(r, c15DestNames)
+		out = append(out, fmt.Sprintf("MM %s ;; %s ;; %s ;; %s", d, c15ScanFor(r, d), c15ScanFor(r, d), c15ScanFor(r, d)))
 	}
 	for i := 0; i < n; i++ {
 		d := pick(r, c15DestNames)
